@@ -173,6 +173,7 @@ type interpreter struct {
 	locks    map[*value]*lockState
 	wgs      map[*value]*wgState
 	natives  map[*value]interface{}
+	blobs    []value
 }
 
 func (i *interpreter) interpretable(fn *ssa.Function) bool {
